@@ -112,6 +112,38 @@ def check_one(item):
                               detail=f"{key} reaches the SQL text only through format_quotes with the context's quote",
                               reason=why, witness={"family": "call", "oracle": "identifier_site",
                                                    "args": [fi.short, ci.short, key]}))
+    # quote/emit: the classes that ARE a named thing print their name, quoted, on every path of get_sql
+    EMIT = {"terms.Field": "name", "queries.Table": "_table_name", "terms.Index": "name", "queries.Column": "name",
+            "queries.Schema": "_name"}
+    if fi.name == "get_sql" and ci.short in EMIT:
+        want = "self." + EMIT[ci.short]
+
+        def present(atoms):
+            acc = z3.BoolVal(False)
+            for a in atoms:
+                if isinstance(a, QuoteA) and any(isinstance(x, Dyn) and isinstance(x.v, Sym) and x.v.path == want
+                                                 for x in a.inner):
+                    return z3.BoolVal(True)
+                if isinstance(a, IteA):
+                    acc = z3.Or(acc, z3.If(a.c, present(a.a), present(a.b)))
+            return acc
+        ok, why, n = True, "", 0
+        for o in run.outcomes:
+            if o.status != "return":
+                continue
+            n += 1
+            ex.st = o.state
+            ex.frames = []
+            try:
+                sh = shape_of(ex, o.value)
+            except Exception:
+                continue
+            if not ex.smt.implied(list(o.state.pc), z3.simplify(present(sh.atoms))):
+                ok, why = False, f"a path renders {str(sh)[:200]} without the quoted {want}"
+        if n:
+            obs.append(Obligation(PROP, f"{name}|quote/emit|{want}", "quote/emit", fi.short, PROVED if ok else REFUTED,
+                                  detail=f"every rendering of a {ci.name} contains its quoted {EMIT[ci.short]}",
+                                  reason=why, witness={"family": "call", "oracle": "name_store", "args": [ci.short]}))
     # a package object formatted through str() renders its names with the quote character of its own default
     # context instead of the context's
     named = frozenset(c.short for c in r.classes.values()
